@@ -78,7 +78,14 @@ def coq(e):
         return f"(InList {coq(e[1])} [{'; '.join(coq_val(v) for v in e[2])}])"
     if k == "between":
         return f"(Between {coq(e[1])} {coq(e[2])} {coq(e[3])})"
+    if k == "tdim":      # time dimension  TIMESTAMP '2024-01-15' + <column e[2]> * INTERVAL 20 DAY  requested at granularity e[1]
+        return f"(Trunc {TD_GRAN[e[1]]} (Add (Lit (VInt {TD_BASE_US})) (Mul (Col {e[2]}) (Lit (VInt {TD_STEP_US})))))"
     raise ValueError(k)
+
+
+TD_BASE_US = 1705276800000000      # 2024-01-15 00:00:00
+TD_STEP_US = 20 * 86400000000     # 20 days
+TD_GRAN = {"day": "Day", "week": "Week", "month": "Month", "quarter": "Quarter", "year": "Year"}
 
 
 def coq_rows(rows):
